@@ -524,16 +524,24 @@ class fake_byteorder:
     """`with fake_byteorder('big'):` - the library call inside sees sys.byteorder of the other kind of host. Nothing in the wire
     formats depends on the host's byte order; code that consults sys.byteorder for them is wrong on half of the hosts."""
 
+    _REAL = sys.byteorder
+    _depth = 0
+    _lock = __import__('threading').Lock()
+
     def __init__(self, order=None):
-        self.order = order or ('big' if sys.byteorder == 'little' else 'little')
+        self.order = order or ('big' if fake_byteorder._REAL == 'little' else 'little')
 
     def __enter__(self):
-        self.old = sys.byteorder
-        sys.byteorder = self.order
+        with fake_byteorder._lock:              # several threads of a two-threads sub-check may be inside at once
+            fake_byteorder._depth += 1
+            sys.byteorder = self.order
         return self
 
     def __exit__(self, *a):
-        sys.byteorder = self.old
+        with fake_byteorder._lock:
+            fake_byteorder._depth -= 1
+            if fake_byteorder._depth == 0:
+                sys.byteorder = fake_byteorder._REAL
         return False
 
 
